@@ -334,10 +334,23 @@ theorem inv_cache {p : Profile} {g : Graph} {c : Store} {d : Dev} (hI : Inv p g 
     rw [targets_congr (invalidators_cache _ _ _ _ _)]
     exact hI.table t r' m h1 h2
 
+/-- What a write through register `n` needs of the description in cache state `c`: every
+register that still HAS an entry, is cachable and lists neither `n` nor `n`'s port cannot
+overlap the write.  `Declared` gives it for every state; for feature-level declarations the
+listers of an already invalidated feature have no entry (see `C04Via`). -/
+def PairOk (p : Profile) (g : Graph) (c : Store) (n : NodeId) (r : Reg) : Prop :=
+  ∀ t rt a' l' bs, g[t]? = some (.reg rt) → rt.mode ≠ .noCache → n ∉ rt.invs → r.port ∉ rt.invs →
+    c.get t a' l' = some bs → mayOverlap p g n r t rt = false
+
+theorem pairOk_of_declared {p : Profile} {g : Graph} (hD : Declared p g) (c : Store) {n : NodeId}
+    {r : Reg} (hn : g[n]? = some (.reg r)) : PairOk p g c n r :=
+  fun _ _ _ _ _ hrt hmode h1 h2 _ => declared_pair hD hn hrt hmode h1 h2
+
 /-- entries that survive `invalidate_by(n)` and `invalidate_by(port)` are untouched by a
-write through register `n` — this is where `Declared` is used -/
-theorem survivor_disjoint {p : Profile} {g : Graph} {c : Store} {d : Dev} (hD : Declared p g)
-    (hI : Inv p g c d) {n : NodeId} {r : Reg} {a : Int} (hn : g[n]? = some (.reg r))
+write through register `n` — this is where the declarations are used -/
+theorem survivor_disjoint {p : Profile} {g : Graph} {c : Store} {d : Dev} {n : NodeId} {r : Reg}
+    (hP : PairOk p g c n r)
+    (hI : Inv p g c d) {a : Int} (hn : g[n]? = some (.reg r))
     (hk : KeyAddr p g r a) {t : NodeId} {a' : Int} {l' : Nat} {bs : Bytes}
     (h : ((c.invalidateBy n).invalidateBy r.port).get t a' l' = some bs)
     (hkey : t = n → a' ≠ a) :
@@ -354,7 +367,7 @@ theorem survivor_disjoint {p : Profile} {g : Graph} {c : Store} {d : Dev} (hD : 
   obtain ⟨rt, hrt, hmode, hl, _, hkt⟩ := hI.keys _ _ _ _ h
   have h1 : n ∉ rt.invs := fun hm => hnn (hI.table t rt n hrt hm)
   have h2 : r.port ∉ rt.invs := fun hm => hnp (hI.table t rt r.port hrt hm)
-  have hno := declared_pair hD hn hrt hmode h1 h2
+  have hno := hP t rt a' l' bs hrt hmode h1 h2 h
   rw [hl]
   refine no_overlap hno hk hkt ?_
   intro e
@@ -367,8 +380,8 @@ theorem survivor_disjoint {p : Profile} {g : Graph} {c : Store} {d : Dev} (hD : 
 device does with the write: success (WriteThrough caches the data, otherwise the own
 entries are dropped), atomic rejection, or rejection after part of the range was modified
 (own entries dropped). -/
-theorem inv_write {p : Profile} {g : Graph} {c : Store} {d : Dev} (hD : Declared p g)
-    (hI : Inv p g c d) {n : NodeId} {r : Reg} {a : Int} {buf : Bytes}
+theorem inv_write {p : Profile} {g : Graph} {c : Store} {d : Dev} {n : NodeId} {r : Reg}
+    (hP : PairOk p g c n r) (hI : Inv p g c d) {a : Int} {buf : Bytes}
     (hn : g[n]? = some (.reg r)) (hp : g[r.port]? = some .port) (hk : KeyAddr p g r a)
     (hlen : buf.length = r.len) :
     Inv p g
@@ -392,7 +405,7 @@ theorem inv_write {p : Profile} {g : Graph} {c : Store} {d : Dev} (hD : Declared
         exact peek_write_same hok
       · rename_i hne
         by_cases hkey : t = n → a' ≠ a
-        · obtain ⟨h1, h2⟩ := survivor_disjoint hD hI hn hk h hkey
+        · obtain ⟨h1, h2⟩ := survivor_disjoint hP hI hn hk h hkey
           rw [← hlen] at h2
           rw [peek_write_frame h2]
           exact hI.coherent _ _ _ _ h1
@@ -420,7 +433,7 @@ theorem inv_write {p : Profile} {g : Graph} {c : Store} {d : Dev} (hD : Declared
     split at h
     · cases h
     rename_i htn
-    obtain ⟨h1, h2⟩ := survivor_disjoint hD hI hn hk h (fun e => absurd e htn)
+    obtain ⟨h1, h2⟩ := survivor_disjoint hP hI hn hk h (fun e => absurd e htn)
     rw [← hlen] at h2
     rw [peek_write_frame h2]
     exact hI.coherent _ _ _ _ h1
